@@ -836,6 +836,9 @@ class XformWorld:
                 v = gen.randn(s, shape, 0.15 * scale)
                 if not delta:
                     v = (v + 1.0) if k == "P" else v.exp()
+                    if k != "P" and s % 5 == 0:
+                        # fixed factors may be negative (an axis reflection): invertible, |factor| as before
+                        v = v * torch.where(gen.rand(s + 3, tuple(v.shape), 0.0, 1.0) < 0.5, -1.0, 1.0)
             elif n == "HomogeneousTransform":
                 v = gen.randn(s, shape, 0.12 * scale)
                 if not delta:
@@ -2173,11 +2176,24 @@ class _Ops:
             st, r = G(lambda: _copy.copy(t))
             buf = x.buf
         elif how == "grid":
-            if x.is_comp or family(t) == "spline":
+            if not x.is_comp and family(t) == "spline":
                 return StepResult("skipped")
             g = self.make_grid(op["grid"])
-            if self.shape_bound(x) or op.get("same_size"):
+            if not x.is_comp and (self.shape_bound(x) or op.get("same_size")):
                 g = Grid(size=t.grid().size(), spacing=g.spacing(), center=g.center(), direction=g.direction(), align_corners=g.align_corners())
+            if x.is_comp:
+                # grid(g) of a composite: whatever it means for the copy (not modelled), the members of the receiver are
+                # shared by reference and must be left exactly as they are
+                st, r = G(lambda: t.grid(g))
+                self.c["checks"]["accessor_leaves_receiver"] += 1
+                if self._holds(t) != held_before:
+                    changed = [k for k in held_before if held_before[k] != self._holds(t).get(k)]
+                    vs = [self.viol("C09", "accessor-changed-receiver", x, "acc:grid(composite)", {"changed": changed[:4]})]
+                    if any(p_.valid and p_.t == x.hid for p_ in self.pairs):
+                        vs.append(self.viol("C07", "accessor-changed-receiver", x, "acc:grid(composite)", {"changed": changed[:4], "receiver_has_inverse": True}))
+                    self.set_buf(x, "unknown")
+                    return StepResult("ok", "acc-changed-receiver", vs)
+                return StepResult("ok" if st == "ok" else "expected_error", "acc:grid(composite):" + st)
             old_grid = t.grid()
             if op.get("equal"):
                 # the grid the transform already has (an equal one, or the very object): still "a new transformation"
@@ -2268,7 +2284,46 @@ class _Ops:
                 return bad
         return out
 
+    def _op_deepcopy_pair(self, op) -> StepResult:
+        """A forward transform and its inverse deep-copied (or pickled) **in one call**: what the two shared before --
+        a parameter tensor, a link -- the two copies share afterwards, so the copied inverse stays the inverse of the copied
+        forward transform after a change of the copy's parameters."""
+        idx = int(op["pair"])
+        if idx >= len(self.pairs):
+            return StepResult("skipped")
+        p = self.pairs[idx]
+        T, I = self.get(p.t), self.get(p.i)
+        if T is None or I is None or T.is_comp or I.is_comp or not p.valid:
+            return StepResult("skipped")
+        kt, ki = kind_of(T.obj), kind_of(I.obj)
+        if kt not in ("P", "B") or not (ki == kt or (ki == "L" and I.obj.params is T.obj)):
+            return StepResult("skipped")
+        how = op.get("how", "deepcopy")
+        try:
+            if any(b.grad_fn is not None for o_ in (T.obj, I.obj) for b in o_.buffers()):
+                return StepResult("skipped")
+        except RuntimeError:
+            return StepResult("skipped")
+        st, r = self.guarded(lambda: pickle.loads(pickle.dumps((T.obj, I.obj))) if how == "pickle" else _copy.deepcopy((T.obj, I.obj)))
+        if st != "ok":
+            return StepResult("ok", how + "-raised", [self.viol("C09", "raises", T, how + ":pair", self.exc_detail(r))])
+        rT, rI = r
+        hid = int(op["out"])
+        yT = self.add(hid, rT, None, how, buf=T.buf, smooth=T.smooth)
+        yI = self.add(hid + 1, rI, yT.comp, how, buf=I.buf, smooth=I.smooth)
+        yT.affine_params = getattr(T, "affine_params", False)
+        yI.affine_params = getattr(I, "affine_params", False)
+        mapping: Dict[int, int] = {}
+        self.inherit_hooks(T.obj, rT, mapping)
+        self.inherit_hooks(I.obj, rI, mapping)
+        self.pairs.append(Pair(yT.hid, yI.hid, p.link, p.ub, True, p.changed_since, "copied pair"))
+        self.c["probes"]["pair_deep_copied_together"] += 1
+        self.hot = [yT.hid, yI.hid]
+        return StepResult("ok", how + ":pair")
+
     def op_deepcopy(self, op) -> StepResult:
+        if op.get("pair") is not None:
+            return self._op_deepcopy_pair(op)
         x = self.get(op["h"])
         if x is None:
             return StepResult("skipped")
@@ -2322,6 +2377,16 @@ class _Ops:
         if not offers:
             return StepResult("ok", "inverse-unexpected")
         hid = int(op["out"])
+        # the integration of a velocity model uses the sampling convention of the grid the model holds -- also in an inverse
+        # taken after the grid changed (cf. configuration-lost across grid_); at the simulator's amplitudes the two
+        # conventions differ by less than the comparison tolerance, so this is read off the object
+        for e_ in walk_elems(r):
+            ex_ = getattr(e_, "exp", None)
+            if cname(e_) in VELOCITY and ex_ is not None and hasattr(ex_, "align_corners"):
+                self.c["checks"]["inverse_integrates_on_its_grid_convention"] += 1
+                if bool(ex_.align_corners) != bool(e_.grid().align_corners()):
+                    det = {"exp.align_corners": bool(ex_.align_corners), "grid.align_corners": bool(e_.grid().align_corners())}
+                    return StepResult("ok", "inverse-config", [self.viol("C07", "configuration-lost", x, desc, det), self.viol("C09", "configuration-lost", x, desc, det)])
         if not link and via != "inv":
             # an unlinked inverse is a shallow copy: it holds what the forward transform holds (the same Parameter or tensor
             # objects, the same predictor), so that it can follow the forward transform as the documentation describes
@@ -2890,14 +2955,24 @@ class _Ops:
         size = [int(s) for s in T.obj.grid().size()]
         ac = T.obj.grid().align_corners()
         cs = torch.tensor([cube_scale(n, ac) for n in size], dtype=torch.float64)
+        smin = 1.0
         try:
             cond = 1.0
             for e in self.elems(T):
                 if family(e.obj) == "lin":
                     cond = max(cond, self._linear_cond(e.obj))
+                    m_ = e.obj.tensor().detach().double()
+                    if m_.shape[-1] > 1:
+                        smin *= float(torch.linalg.svdvals(m_[:, : self.D, : self.D]).min())
         except Exception:
             cond = float("inf")  # non-finite parameters (e.g. an optimiser step that diverged)
         mag = max(1.0, float(y.detach().abs().max()), float(y2.detach().abs().max()))
+        if lin_only and math.isfinite(cond) and cond <= 50 and smin >= 0.2 and float(y.detach().abs().max()) <= 50 \
+                and not (float(y2.detach().abs().max()) <= 1000):
+            # the forward map is well conditioned and of ordinary size (smallest singular value >= 0.2), so its inverse maps
+            # the unit cube to something of size <= (1 + |t|) / 0.2: an inverse that sends it beyond 1000 is no inverse
+            out.violations.append(self.viol("C07", "not-inverse", T, desc + ":inverse-unbounded", {"max_abs_I(x)": float(y2.detach().abs().max()), "cond": cond, "smin": smin, "link": p.link, "ub": p.ub}))
+            return out
         if not math.isfinite(cond) or cond > 50 or not math.isfinite(mag) or mag > 50:
             self.c["probes"]["rt_skipped_illconditioned"] += 1
             return out
@@ -2989,8 +3064,8 @@ PROFILES = {
             "condition_": 4, "copy": 6, "deepcopy": 1.5, "inverse": 3, "link_": 1.5, "compose": 2, "roundtrip": 2,
             "arm": 2, "interrupt": 3.5, "checkpoint": 3, "restart": 3, "fit": 2.5, "restore": 2, "cast": 1.6, "hook": 1.2},
     "C07": {"call": 4, "disp": 2, "update": 1, "clear": 0.5, "data_": 5, "inplace": 7, "sgd": 3, "reset": 1.5, "grid_": 1,
-            "condition_": 4, "copy": 2, "deepcopy": 0.5, "inverse": 9, "link_": 0.5, "compose": 2.5, "roundtrip": 16,
-            "arm": 1, "interrupt": 1, "checkpoint": 1, "restart": 1, "fit": 1.5, "restore": 0.7, "cast": 0.5, "hook": 0.3},
+            "condition_": 4, "copy": 2, "deepcopy": 2.5, "inverse": 9, "link_": 0.5, "compose": 2.5, "roundtrip": 16,
+            "arm": 1, "interrupt": 1, "checkpoint": 2.5, "restart": 1, "fit": 1.5, "restore": 3, "cast": 0.5, "hook": 0.3},
 }
 
 
@@ -3148,6 +3223,20 @@ class _Gen:
             if rng.chance(0.2):
                 op.update({"via": "inv", "link": True, "ub": True})
             return op
+        if last == "grid_" and hot0 is not None and not hot0.is_comp and cname(hot0.obj) in VELOCITY and offers_inverse(hot0.obj) \
+                and any(p_.t == hot0.hid for p_ in self.pairs) and len(live) < sc["max_handles"] and rng.chance(0.35):
+            # an inverse was taken from this velocity model before its grid changed: another one is taken right afterwards
+            # (whatever an implementation keeps from the first must not survive the re-gridding)
+            self.last_kind = "inverse"
+            op = {"op": "inverse", "h": hot0.hid, "link": bool(rng.chance(0.5)), "ub": bool(rng.chance(0.5)), "out": self.alloc(1)}
+            if rng.chance(0.3):
+                op.update({"via": "inv", "link": True, "ub": True})
+            return op
+        if last == "restore" and hot0 is not None and rng.chance(0.6):
+            idxs = [i_ for i_, p_ in enumerate(self.pairs) if p_.valid and p_.t == hot0.hid and self.get(p_.i)]
+            if idxs:
+                self.last_kind = "roundtrip"
+                return {"op": "roundtrip", "pair": rng.choice(idxs), "pseed": rng.subseed(), "inv_first": bool(rng.chance(0.4))}
         if last == "inverse" and self.pairs and self.pairs[-1].valid and rng.chance(follow):
             self.last_kind = "roundtrip"
             return {"op": "roundtrip", "pair": len(self.pairs) - 1, "pseed": rng.subseed()}
@@ -3307,9 +3396,11 @@ class _Gen:
                 x = rng.choice(cands)
         op = {"op": "copy", "h": x.hid, "how": how, "out": self.alloc(HID_BLOCK if x.is_comp else 1)}
         if how == "grid":
-            if x.is_comp or family(x.obj) == "spline":
+            if family(x.obj) == "spline":
                 return None
             op["grid"] = gen.grid_desc(rng, self.D, 6, 16 if self.D == 2 else 9)
+            if x.is_comp:
+                return op
             if rng.chance(0.35):
                 op["same_size"] = True  # same lattice size, other geometry: the parameter shape stays the same
             elif rng.chance(0.2):
@@ -3333,6 +3424,10 @@ class _Gen:
         return op
 
     def gen_deepcopy(self, rng):
+        cands = [i for i, p in enumerate(self.pairs) if p.valid and self.get(p.t) and self.get(p.i) and not self.get(p.t).is_comp
+                 and not self.get(p.i).is_comp and kind_of(self.get(p.t).obj) in ("P", "B")]
+        if cands and rng.chance(0.65) and len(self.live()) + 2 <= int(self.sc.get("max_handles", 8)) + 2:
+            return {"op": "deepcopy", "pair": rng.choice(cands), "how": rng.choice(["deepcopy", "deepcopy", "pickle"]), "out": self.alloc(2)}
         x = self.pick(rng)
         if x is None:
             return None
@@ -3440,7 +3535,14 @@ class _Gen:
         return {"op": "disp", "h": x.hid, "which": "disp", "interrupt": rng.randint(1, 60)}
 
     def gen_checkpoint(self, rng):
-        x = self.pick(rng, lambda y: not y.is_comp and kind_of(y.obj) in ("P", "B"))
+        x = None
+        if rng.chance(0.6):
+            # the forward transform of an inverse pair: a later load_state_dict into it copies the saved values in place,
+            # which an unlinked inverse sharing the tensor must follow
+            fw = {p_.t for p_ in self.pairs if p_.valid}
+            x = self.pick(rng, lambda y: y.hid in fw and not y.is_comp and kind_of(y.obj) in ("P", "B"))
+        if x is None:
+            x = self.pick(rng, lambda y: not y.is_comp and kind_of(y.obj) in ("P", "B"))
         return None if x is None else {"op": "checkpoint", "h": x.hid, "slot": rng.randint(0, 2)}
 
     def gen_restart(self, rng):
